@@ -42,6 +42,7 @@ THEOREMS = [
     "Marwood.Proofs.C13.sliced_sim_pure_partial",
     "Marwood.Proofs.C13.sliced_equiv_uninterrupted_concrete_partial",
     "Marwood.Proofs.C13.sliced_value_eq_uninterrupted_partial",
+    "Marwood.Proofs.C13.failingExt_laws",
     "Marwood.Lemmas.Sim.cgc_sim",
     "Marwood.Lemmas.Sim.step_sim",
     "Marwood.Lemmas.Sim.execSim_all",
